@@ -257,7 +257,23 @@ def _parse_out(path):
     return res, begun, done, fatal
 
 
-def _run_chunk(exe, driver, items, env, timeout, extra_args):
+class _Deaths:
+    """shared budget of dead workers (crash/timeout) for one run_batch call"""
+
+    def __init__(self, limit):
+        self.limit = limit
+        self.n = 0
+        self.lock = threading.Lock()
+
+    def exhausted(self):
+        return self.limit is not None and self.n >= self.limit
+
+    def add(self):
+        with self.lock:
+            self.n += 1
+
+
+def _run_chunk(exe, driver, items, env, timeout, extra_args, deaths=None):
     """Run items through the driver; returns list of (status, text) with
     status in OK / ERR / CRASH / TIMEOUT. Crashes are attributed to one item
     by re-running with per-item flushing."""
@@ -267,6 +283,10 @@ def _run_chunk(exe, driver, items, env, timeout, extra_args):
     d = mktmp()
     try:
         while offset < len(items):
+            if deaths is not None and deaths.exhausted():
+                for i in range(offset, len(items)):
+                    out[i] = ("SKIPPED", "not run: too many dead workers in this batch")
+                break
             sub = items[offset:]
             ip, op = os.path.join(d, "items.jdn"), os.path.join(d, "out.txt")
             with open(ip, "w") as f:
@@ -309,21 +329,26 @@ def _run_chunk(exe, driver, items, env, timeout, extra_args):
                 raise HarnessError("batch driver %s died outside an item: %s" % (driver, r.describe()))
             kind = "TIMEOUT" if r.timed_out else "CRASH"
             out[offset + n] = (kind, r.describe())
+            if deaths is not None:
+                deaths.add()
             offset += n + 1
     finally:
         shutil.rmtree(d, ignore_errors=True)
     return out
 
 
-def run_batch(variant, driver, items, env=None, chunk=1000, timeout=120, extra_args=(), jobs=None):
-    """items: list of single-line Janet forms (strings). Returns list of (status, text)."""
+def run_batch(variant, driver, items, env=None, chunk=1000, timeout=120, extra_args=(), jobs=None, max_deaths=None):
+    """items: list of single-line Janet forms (strings). Returns list of (status, text).
+    max_deaths: after that many crashed/hung workers the remaining items come back as SKIPPED
+    (a tree on which everything hangs would otherwise cost a timeout per item)."""
     exe = vjanet(variant)
     items = list(items)
     for it in items:
         if "\n" in it:
             raise HarnessError("batch item contains a newline")
     chunks = [items[i:i + chunk] for i in range(0, len(items), chunk)]
-    results = pmap(lambda c: _run_chunk(exe, driver, c, env, timeout, extra_args), chunks, jobs)
+    deaths = _Deaths(max_deaths)
+    results = pmap(lambda c: _run_chunk(exe, driver, c, env, timeout, extra_args, deaths), chunks, jobs)
     flat = []
     for r in results:
         flat.extend(r)
